@@ -135,6 +135,10 @@ func (m *DefaultInterfaceMocker) Return(value ...interface{}) *When {
 	if m.when != nil {
 		return m.when.Return(value...)
 	}
+	if value == nil {
+		// Return() 未带任何返回值: 用空数组表示, 以便检查返回值个数
+		value = []interface{}{}
+	}
 
 	var (
 		when *When
